@@ -43,6 +43,8 @@ D = {
     '[wl_surface, wl_seat].[commit, capabilities]': ms.pattern(
         C0, _obj('', lambda o: o[0] in ('wl_surface', 'wl_seat')), _name('', lambda n: n in ('commit', 'capabilities')), A0),
     '*': lambda m: True,
+    '[wl_pointer ! 6]': ms.bare(C0, _obj('[wl_pointer ! 6]', lambda o: o[0] == 'wl_pointer' and o[1] != 6)),
+    'wl_*_surface': ms.bare(C0, _obj('wl_*_surface', ms.o_type('wl_*_surface'))),
     'wl_surface.destroyed': ms.pattern(C0, _obj('wl_surface', ms.o_type('wl_surface')), ('destroyed', lambda n: n == 'destroyed', True), A0),
     '(wl_seat)': ms.pattern(C0, O0, N0, ('(wl_seat)', ms.argl([ms.a_word('wl_seat')]))),
     '("wl_seat")': ms.pattern(C0, O0, N0, ('("wl_seat")', ms.argl([ms.a_str('wl_seat')]))),
@@ -68,6 +70,8 @@ COMMANDS = [
     ('("wl_seat")', ['("wl_seat")'], []),
     ('3é', 'BAD', None),
     ('! ("wl_seat")', [], ['("wl_seat")']),
+    # an exclusion scoped inside one bracketed alternative is not an exclusion of the whole matcher
+    ('[wl_pointer ! 6]', ['[wl_pointer ! 6]'], []),
     ('A: .commit', ['A: .commit'], []),
     ('B: .commit', ['B: .commit'], []),
 ]
